@@ -14,6 +14,7 @@ type Script struct {
 	cmds     []string
 	declared map[string]bool
 	counter  int
+	seenAssert map[string]bool
 }
 
 func newScript() *Script {
@@ -87,6 +88,13 @@ func (s *Script) assert(term string) {
 	if term == "true" {
 		return
 	}
+	if s.seenAssert == nil {
+		s.seenAssert = map[string]bool{}
+	}
+	if s.seenAssert[term] {
+		return
+	}
+	s.seenAssert[term] = true
 	s.add("(assert " + term + ")")
 }
 
